@@ -35,6 +35,12 @@ func init() {
 		}
 		return c16BuilderOut{b.Completions()}
 	})
+	gen.RegisterOp("c16", "cancelrt", func(_ *gen.Ctx, raw json.RawMessage) any {
+		return c16CancelRT(gen.Into[c16CancelRTIn](raw))
+	})
+	gen.RegisterOp("c16", "cancelhandler", func(_ *gen.Ctx, raw json.RawMessage) any {
+		return c16CancelHandler(gen.Into[c16CancelHandlerIn](raw))
+	})
 	gen.RegisterOp("c16", "stressSlots", func(_ *gen.Ctx, raw json.RawMessage) any {
 		in := gen.Into[c16StressSlotsIn](raw)
 		s, a := tracer.VerifStressSlots(in.Setup, in.Threads, in.After, 5*time.Second, 150*time.Millisecond)
@@ -78,6 +84,66 @@ func init() {
 		wg.Wait()
 		return c16BuilderOut{b.Completions()}
 	})
+}
+
+// cancellation racing the body events, through the real middleware (the sessions of c14.go)
+type c16CancelRTIn struct {
+	RT       c14RTIn `json:"rt"`
+	CancelAt int     `json:"cancelAt"` // the caller cancels the context before its action number CancelAt
+	Yield    bool    `json:"yield"`    // and then pauses for a moment
+}
+type c16CancelHandlerIn struct {
+	H        c14HandlerIn `json:"h"`
+	CancelAt int          `json:"cancelAt"`
+	Yield    bool         `json:"yield"`
+}
+type c16CancelOut struct {
+	Ref         []string `json:"ref"` // the trace of the same session without the cancellation
+	Got         []string `json:"got"`
+	Completions int      `json:"completions"`
+}
+
+func c16CancelRT(in c16CancelRTIn) c16CancelOut {
+	run := func(cancelAt int) tracer.VerifRoundTripOut {
+		reqBody, _ := in.RT.Req.script()
+		respBody, actions := in.RT.Resp.script()
+		if cancelAt >= 0 {
+			if cancelAt > len(actions) {
+				cancelAt = len(actions)
+			}
+			ins := []string{"x"}
+			if in.Yield {
+				ins = append(ins, "y")
+			}
+			actions = append(actions[:cancelAt:cancelAt], append(ins, actions[cancelAt:]...)...)
+		}
+		return tracer.VerifRoundTrip(in.RT.Req.headers(), reqBody, in.RT.Fail, in.RT.Status, in.RT.Resp.headers(), respBody, actions)
+	}
+	ref := run(-1)
+	got := run(in.CancelAt)
+	return c16CancelOut{Ref: ref.Events, Got: got.Events, Completions: got.Completions}
+}
+
+func c16CancelHandler(in c16CancelHandlerIn) c16CancelOut {
+	run := func(cancelAt int) tracer.VerifHandlerOut {
+		actions := in.H.Actions
+		if cancelAt >= 0 {
+			if cancelAt > len(actions) {
+				cancelAt = len(actions)
+			}
+			ins := []tracer.VerifHAction{{Kind: "cancel"}}
+			if in.Yield {
+				ins = append(ins, tracer.VerifHAction{Kind: "yield"})
+			}
+			actions = append(actions[:cancelAt:cancelAt], append(ins, actions[cancelAt:]...)...)
+		}
+		h := in.H
+		h.Actions = actions
+		return c14Handler1(h, true)
+	}
+	ref := run(-1)
+	got := run(in.CancelAt)
+	return c16CancelOut{Ref: ref.Events, Got: got.Events, Completions: got.Completions}
 }
 
 type c16SlotsIn struct {
@@ -382,6 +448,17 @@ func runC16(c *gen.Ctx) error {
 		if racy {
 			e.Count("stressSlots:racing-clear-or-init")
 		}
+	}
+	// ---- the real middleware with a cancellation racing the body events
+	nCancel := 300
+	if c.Thorough() {
+		nCancel = 4000
+	}
+	for i := 0; i < nCancel; i++ {
+		rt, h := c14RandMiddleware(c)
+		_, acts := rt.Resp.script()
+		c.Do("cancelrt", c16CancelRTIn{RT: rt, CancelAt: r.Intn(len(acts) + 1), Yield: r.Chance(2, 3)})
+		c.Do("cancelhandler", c16CancelHandlerIn{H: h, CancelAt: r.Intn(len(h.Actions) + 1), Yield: r.Chance(2, 3)})
 	}
 	for i := 0; i < nss; i++ {
 		stress(false)
